@@ -127,6 +127,46 @@ func largeBodies(res *vkit.Result) {
 			}
 		}
 	}
+	// (c) batches whose LAST tasks are slow, at sizes that are not multiples of small powers of two: a batch that is
+	//     handed out in chunks, or counted in chunks, must still wait for its last (shorter) chunk
+	for _, k := range []int{9, 100, 257, 260, 1001, 5003} {
+		for _, w := range []int{1, 2, 4} {
+			k, w := k, w
+			p := pool.NewPool(w)
+			var got []interface{}
+			ok := within(60*time.Second, func() {
+				got = p.Parallelize(k, func(i int) interface{} {
+					if i >= k-3 {
+						time.Sleep(40 * time.Millisecond)
+					}
+					return i + 1
+				})
+			})
+			res.Case("")
+			sig := fmt.Sprintf("parallelize-slow-tail|pool=%d", w)
+			if !ok {
+				res.Violate("hang|"+sig, fmt.Sprintf("Parallelize(%d) did not return within 60 s", k), map[string]interface{}{"body": "parallelize-slow-tail", "w": w, "k": k})
+				continue
+			}
+			snapshot := append([]interface{}{}, got...) // what the caller sees at the moment the call returns
+			missing := -1
+			for i := 0; i < k && i < len(snapshot); i++ {
+				if v, isInt := snapshot[i].(int); !isInt || v != i+1 {
+					missing = i
+					break
+				}
+			}
+			if len(snapshot) != k || missing >= 0 {
+				res.Violate("wrong-result|"+sig, fmt.Sprintf("Parallelize(%d) on a %d-worker pool returned before its last tasks had finished: entry %d of the result is %v", k, w, missing, func() interface{} {
+					if missing >= 0 {
+						return snapshot[missing]
+					}
+					return fmt.Sprintf("(length %d)", len(snapshot))
+				}()), map[string]interface{}{"body": "parallelize-slow-tail", "w": w, "k": k})
+			}
+			within(20*time.Second, func() { p.TearDown() })
+		}
+	}
 	// nested nil-pool batches (a task of a nil-pool batch issues a nil-pool batch itself)
 	var total int64
 	var np *pool.Pool
